@@ -415,16 +415,25 @@ struct StringStream {
         constexpr SizeT size       = sizeof(Char_T);
         const SizeT     new_length = (Length() + len);
 
+        Char_T *old_storage = nullptr;
+
         if (Capacity() < new_length) {
-            expand(new_length);
+            // str can point into the current storage (stream += stream): release it after copying.
+            old_storage = grow(new_length);
         }
 
         Memory::Copy((Storage() + Length()), str, (len * size));
+        Memory::Deallocate(old_storage);
 
         setLength(new_length);
     }
 
     void expand(const SizeT new_capacity) {
+        Memory::Deallocate(grow(new_capacity));
+    }
+
+    // Moves the content to a larger storage and returns the old one (not released yet).
+    Char_T *grow(const SizeT new_capacity) {
         constexpr SizeT size = sizeof(Char_T);
         Char_T         *str  = Storage();
 
@@ -435,7 +444,8 @@ struct StringStream {
 #endif
 
         Memory::Copy(Storage(), str, (Length() * size));
-        Memory::Deallocate(str);
+
+        return str;
     }
 
     void allocate(SizeT size) {
